@@ -35,7 +35,7 @@ P = {
          "All bounds x all probe points enumerated; surrounding message contents sampled."),
  "C13": ("exploration", "enumeration of character-width patterns around the 64-byte cut x alignments + proptest Unicode text + every icon length 0..300 + ill-formed UTF-8 injection; oracle from str::is_char_boundary / from_utf8",
          "Thorough: all 4^8 width patterns x 9 alignments; quick: 4^5 x 9. Built with debug assertions so a failed unwrap_unchecked aborts."),
- "C14": ("exploration", "exhaustive small-alphabet enumeration (5 461 parameter lists, 1 365 format lists) + proptest lists up to 64 entries against the specification's filter rule, through every observation path",
+ "C14": ("exploration", "exhaustive small-alphabet enumeration (5 461 parameter lists, 1 365 format lists) + proptest lists up to 64 entries and positional lists of up to 320 entries (supported / known / unknown entries placed at chosen positions) against the specification's filter rule, through every observation path",
          "Complete for the stated small alphabets; larger lists sampled."),
  "C15": ("exploration", "round-trip properties under proptest: decode(encode(v)) == v for API-built values and encode(decode(b)) == b for canonical reference encodings, for every bidirectional type, presence subsets enumerated",
          "Independent of any key table: fails exactly when the two directions disagree. All 8 configurations."),
